@@ -139,6 +139,12 @@ class Gen:
                     mods = []
                     elems.append({"kind": "extends", "name": base["name"],
                                   "mods": [(m, num(r.randint(1, 9))) for m in base["params"][:r.randint(0, 2)]]})
+                    if r.random() < 0.3:
+                        if base["params"] and r.random() < 0.7:
+                            elems[-1]["nested"] = (base["params"][-1], r.randint(1, 9))
+                            elems[-1]["mods"] = [x for x in elems[-1]["mods"] if x[0] != base["params"][-1]]
+                        elems[-1]["redeclare"] = self.fresh("rz")
+                        self.tags.add("extends-with-component-redeclaration")
                     self.tags.add("extends-in-%s-section" % (label or "default"))
                 elif k < 0.88:
                     form = r.choice(["qualified", "renaming", "unqualified", "list", "list"])
@@ -194,7 +200,14 @@ def print_elem(e, ind):
             parts.append(t)
         return s + " " + ", ".join(parts) + ";\n"
     if e["kind"] == "extends":
-        m = "(" + ", ".join("%s = %s" % (a, P(x)) for a, x in e["mods"]) + ")" if e["mods"] else ""
+        items = ["%s = %s" % (a, P(x)) for a, x in e["mods"]]
+        if e.get("nested"):
+            items.insert(0, "%s(start = %s)" % e["nested"])
+        if e.get("redeclare"):
+            # a component redeclaration inside the extends modification: it modifies the base class, it does not
+            # declare a component of the extending class
+            items.append("redeclare Real %s" % e["redeclare"])
+        m = "(" + ", ".join(items) + ")" if items else ""
         return "%sextends %s%s;\n" % (ind, e["name"], m)
     if e["kind"] == "import":
         if e["form"] == "qualified":
@@ -348,7 +361,18 @@ def compare_class(ctx, c, pc, path, probe_symbols):
             return ("extends-name", "%s: extends %s, declared %s" % (path, pe.component, e["name"]))
         if vis == "public" and pe.visibility != past.Visibility.PUBLIC or vis == "protected" and pe.visibility != past.Visibility.PROTECTED:
             return ("visibility:extends-%s-section" % vis, "%s: extends %s in a %s section has visibility %s" % (path, e["name"], vis, pe.visibility))
-        got = [(".".join(a.value.component.to_tuple()), adapters.to_mexpr(a.value.modifications[0])) for a in pe.class_modification.arguments]
+        got = []
+        n_redeclared = 0
+        for a in pe.class_modification.arguments:
+            if getattr(a, "redeclare", False) or not hasattr(a.value, "modifications"):
+                n_redeclared += 1
+                continue
+            if a.value.modifications and type(a.value.modifications[0]).__name__ == "ClassModification":
+                continue        # nested modification p(start = 1): only its presence is generated, not compared
+            got.append((".".join(a.value.component.to_tuple()), adapters.to_mexpr(a.value.modifications[0])))
+        if n_redeclared != (1 if e.get("redeclare") else 0):
+            return ("extends-redeclarations", "%s: extends %s has %d redeclaration arguments, declared %d" % (
+                path, e["name"], n_redeclared, 1 if e.get("redeclare") else 0))
         if not same_items(got, e["mods"]):
             return ("extends-modifications", "%s: extends %s modifications %s, declared %s" % (path, e["name"], got, e["mods"]))
     # imports
